@@ -471,7 +471,14 @@ impl RawAutomaton {
         let mut power_transitions = Vec::with_capacity(self.transitions.len());
         let mut final_states =
             FxHashSet::with_capacity_and_hasher(self.final_states.len(), FxBuildHasher);
-        let markers = Vec::from_iter(self.markers.clone());
+        // An automaton without any transition uses no marker at all. It still has to be
+        // completed over the whole (unmarked) alphabet, otherwise its complement would
+        // be empty.
+        let mut marker_set = self.markers.clone();
+        if completion && marker_set.is_empty() {
+            marker_set.insert(0);
+        }
+        let markers = Vec::from_iter(marker_set.iter().copied());
 
         while let Some(power_state) = pending.pop() {
             if let Entry::Vacant(entry) = visited.entry(power_state.clone()) {
@@ -533,7 +540,7 @@ impl RawAutomaton {
             initial_state: 0,
             final_states,
             transitions,
-            markers: self.markers,
+            markers: marker_set,
         }
     }
 
